@@ -49,8 +49,14 @@ class Task(object):
 
 class Sched(object):
     def __init__(self, run, policy="default", seed=0, preempt=None, wake="fifo", spurious=0.0,
-                 step_cap=STEP_CAP_DEFAULT, pct_depth=2, est_len=300, bound=2):
+                 step_cap=STEP_CAP_DEFAULT, pct_depth=2, est_len=300, bound=2, line_trace=None):
         self.run = run
+        # line_trace: file name whose executed LINES are pre-emption points too (in-memory races between two
+        # statements of the store, below file-system-call granularity)
+        self.line_trace = line_trace
+        self.line_points = 0
+        if line_trace:
+            step_cap = step_cap * 100
         run.sched = self
         self.policy = policy
         self.rng = random.Random("sched:%s" % seed)
@@ -131,7 +137,13 @@ class Sched(object):
         with seam.activate(self.run, t.tid):
             try:
                 if not self.aborting:
-                    t.fn()
+                    if self.line_trace:
+                        sys.settrace(self._global_tracer)
+                    try:
+                        t.fn()
+                    finally:
+                        if self.line_trace:
+                            sys.settrace(None)
             except seam.SimAbort:
                 pass
             except seam.SimCrash:
@@ -187,6 +199,17 @@ class Sched(object):
             runnable[0].parked = None
             return runnable[0]
         choice = default
+        if res is not None and res[0] == "line" and not self.preempt_in:
+            # between two statements: switch rarely (a few times per call)
+            if cur is not None and cur.parked is not None:
+                cur.parked = None
+            if self.rng.random() < 0.004:
+                others = [t for t in runnable if t is not cur]
+                if others:
+                    choice = self.rng.choice(others)
+            if choice is not default:
+                self.preempt_out[d] = choice.tid
+            return choice
         if self.preempt_in:
             want = self.preempt_in.get(d)
             if want is not None:
@@ -284,6 +307,25 @@ class Sched(object):
 
     def _me(self):
         return self.current
+
+    # -- line-level pre-emption ---------------------------------------------------------------
+    def _global_tracer(self, frame, event, arg):
+        if frame.f_code.co_filename == self.line_trace:
+            return self._local_tracer
+        return None
+
+    def _local_tracer(self, frame, event, arg):
+        if event == "line" and not self.aborting:
+            cur = self.current
+            if cur is not None and cur.thread is not None and cur.thread.ident == _rt.get_ident() and \
+                    getattr(seam._tl, "depth", 0) == 0:
+                self.line_points += 1
+                nxt = self._pick(cur, None, ("line", False))
+                if nxt is None:
+                    self._fail_from_task(cur)
+                if nxt is not cur:
+                    self._switch_to(nxt, cur)
+        return self._local_tracer
 
     def yield_point(self, ev=None, res=None):
         if self.aborting:
